@@ -24,7 +24,7 @@ META = dict(
           "gyroscopic force is what Newton-Euler (differentiated spatial momentum about the moving body origin) requires beyond Mk A; H = H_PB_G from H_FM and HDot = d/dt H for the 8 frame "
           "specialisations <noR_FM,noX_MB,noR_PF> (calcParentToChildVelocityJacobianInGround[Dot]). "
           "(T, BOUNDED: ground + 1 body, ground + 2-body chain, ground + 2 bodies both on Ground, 1 symbolic mobility per body, passes run in the transliterated driver order): inverse(forward(f,F)) has zero residual, "
-          "forward(f + inverse(udot*)) = udot*, residual = M udot + C(q,u) - f - ~J F. Over the reals (z3 QF_NRA). NOT decided: the induction over arbitrary trees (only the induction step = "
+          "forward(f + inverse(udot*)) = udot*, residual = M udot + C(q,u) - f - ~J F, ~J is the adjoint of J and J u = V_GB of the velocity recursion. Over the reals (z3 QF_NRA). NOT decided: the induction over arbitrary trees (only the induction step = "
           "node lemmas and its instances n <= 2 are machine checked), branching in the composition, prescribed motion, constraints, the mobilizer-specific H/HDot and N (C03/C05), "
           "position kinematics (Phi, Mk_G from X_GB), calcQDotDot, float rounding."),
     note=("Assumes real arithmetic; trusts z3/cvc5, the transliterator + plumbing rule tables (logged per function), the symlib Vec/Mat shim and the node store / array-view shim of "
@@ -33,7 +33,7 @@ META = dict(
     technique="symbolic execution of transliterated real code over the reals + SMT (z3 QF_NRA); let-abstraction + lemma chains; dual numbers for d/dt; native random-tree replay through the public API",
     design_ref="5 C02 (partial kernel added)")
 
-ERRS = (AssertionError, TypeError, AttributeError, IndexError, KeyError, DL.NotModelled, ZeroDivisionError)
+ERRS = (AssertionError, TypeError, AttributeError, IndexError, KeyError, NameError, DL.NotModelled, ZeroDivisionError)
 
 
 def unit(ctx, name, fn):
@@ -92,6 +92,7 @@ def main(ctx):
             DL.fd_lemmas(B, sc, abi, "fd.dof%d" % dof)
         unit(ctx, "abi+fd.dof%d" % dof, node)
         unit(ctx, "id.dof%d" % dof, lambda dof=dof: DL.id_lemmas(B, DL.NodeScenario(B, dof, 1), "id.dof%d" % dof))
+        unit(ctx, "jac.dof%d" % dof, lambda dof=dof: DL.jac_lemmas(B, DL.NodeScenario(B, dof, 1), "jac.dof%d" % dof))
         unit(ctx, "vel.dof%d" % dof, lambda dof=dof: DL.vel_lemmas(B, dof, "vel.dof%d" % dof))
         unit(ctx, "hpbg.dof%d" % dof, lambda dof=dof: DL.hpbg_lemmas(B, dof, "hpbg.dof%d" % dof))
     # a leaf node and a node with two children: the same members on the other loop counts
@@ -116,7 +117,7 @@ def main(ctx):
         "the mobilizer-specific parts: H_FM/HDot_FM, N/NDot/qdotdot (C03/C05 cover H_FM, HDot_FM, N per mobilizer); H_PB_G/HDot_PB_G are tied to H_FM/HDot_FM here (hpbg.*) for arbitrary "
         "(not necessarily orthonormal) R_GP, R_PF, R_FM, but the realize sequence that feeds them (calcBodyTransforms, X_GP recursion) is not enacted",
         "position kinematics: Phi = PhiMatrix(p_PB_G), Mk_G = SpatialInertia(mass, R_GB*com, G reexpressed) (calcJointIndependentKinematicsPos; C29 covers the mass-property operators)",
-        "realizeYOutward, calcEquivalentJointForces / calcTreeEquivalentMobilityForces (transliterated, no obligations), LoneParticle and Weld nodes, Custom mobilizers",
+        "realizeYOutward, the calcTreeEquivalentMobilityForces driver (its node member calcEquivalentJointForces is under a node lemma only), LoneParticle and Weld nodes, Custom mobilizers",
         "the State/cache/stage plumbing of the SimbodyMatterSubsystemRep drivers (realized-flags, resize, zero-length argument conveniences, calcConstraintAccelerationErrors)",
         "dof = 4, 5 (FreeLine) and, in the quick tier, dof = 6: node lemmas run in the thorough tier only; Mat<N,N>::invert() for N > 3 (Lapack) is modelled by its defining equations",
         "float rounding; ill-conditioned D (the real invert() may throw); det D == 0"]
